@@ -607,6 +607,7 @@ fn dispatch(line: &str) -> String {
         "casing" => cmd_casing(&args),
         "fold" => cmd_fold(&args),
         "walk" => walk::cmd_walk(&args),
+        "walkcd" => walk::cmd_walkcd(&args),
         "tree" => walk::cmd_tree(&args),
         _ => format!("unknown-command {}", command),
     }
